@@ -78,7 +78,11 @@ def run(ctx, rep):
         lp = [x for x in walk_nodes(call.node.body, ast.For) if pr[0][1] in walk_calls(x.body)][0]
         good = utext(lp.iter) == "runner_removals" and not loop_body_exits_early(lp) and \
             utext(pr[0][1].args[0]) == "market" and utext(pr[0][1].args[1]) == "*" + utext(lp.target)
-    rep.check(good, "R1", key(call, None, "every new removal is applied once, before the matching of this update"), call)
+    if good:
+        lpn = [x for x in cfg.live_nodes() if x.kind == "for_init" and x.ast is lp][0]
+        good = not cfg.guards(lpn.id)
+    rep.check(good, "R1", key(call, None, "every new removal is applied once, unconditionally, before the matching of this update"), call,
+              None, "a removal that is registered but applied only under some condition is lost for good")
     rl = [x for x in walk_nodes(call.node.body, ast.For) if utext(x.iter) == "market.market_book.runners"]
     rep.check(len(rl) == 1 and not loop_body_exits_early(rl[0]), "R1", key(call, None, "all runners of the book are inspected"), call)
 
